@@ -229,6 +229,15 @@ def aliasing_lint(rep, ix):
                         rep.bad(R, ix.site(f, b), "`%s` does not alias its rows" % " ".join(u(b).split())[:60], "list repetition copies references: all rows are one list", key="%s|%s" % (q, u(b)[:60]))
     if n == 0:
         rep.ok(R, "listener/auxiliary/program", "no list-repetition of nested mutable lists")
+    for q, f in sorted(ix.funcs.items()):
+        if f.mod not in ("listener", "auxiliary", "program"):
+            continue
+        for c in ast.walk(f.node):
+            if isinstance(c, ast.Call):
+                for k in c.keywords:
+                    if k.arg == "order" and not (isinstance(k.value, ast.Constant) and k.value.value in ("C", None)):
+                        rep.bad(R, ix.site(f, c), "`%s` traverses arrays in row-major (C) order" % " ".join(u(c).split())[:60], "order=%s: element order depends on memory layout / is column-major" % u(k.value),
+                                key="%s|order|%s" % (q, u(k.value)))
 
 
 def shared_tables(rep, ix, G):
